@@ -80,6 +80,12 @@ CLAIMED = {
             'templates, pooled covariance, pseudo-inverse and static / DPA scores of the real attacks (several batch sizes, both precisions, class lists with gaps) equal the exact rationals; '
             'run before build refused.',
             'Trace length <= 2 (exact pseudo-inverse); covariance/scores claimed when every declared class has >= 2 building traces; building sets are sampled, not enumerated.', '6/C14'),
+    'C18': ('TLA+ definitions of the documented pair lists and operators on dyadic numbers, first-order formulas, time-domain circular cross-correlation and the DFT over Gaussian integers '
+            '(Preprocess.tla, PreprocessCases.tla) evaluated by TLC for every offered configuration; executed on the real preprocess classes',
+            'TLC checks for every configuration that the pair list has no duplicate and the documented length and computes exact output rows (values up to 2^62 as m*2^e); every frame form x frame_2 x mode x '
+            'distance x operator x dtype palette of extremes is executed: floating result dtype, rows equal to the exact rows rounded to it, same output row for the same input row in different batches; '
+            'ToPower/square/centring/standardising/serialize_bit/fft_modulus and six time-frequency combinations.',
+            'Time-frequency combinations other than Xcorr only at lengths 1, 2, 4; one known finding (Xcorr odd lengths) recorded, not repaired.', '6/C18'),
     'C19': ('TLA+ declarative post-condition ValidPeaks and code-shaped elimination scans (Signal.tla, SigPeaks.tla: repaired scan verified on every signal of the bound, pinned scan refuted); outputs of the real '
             'find_peaks judged by TLC (SigPeaksV.tla); windowed moments, pattern scores and width runs enumerated by TLC (SigEnum.tla) and compared with the real helpers',
             'TLC checks the repaired scan against ValidPeaks and isolated-maximum retention on every signal of length <= 7 over 3 values and <= 9 over 2 values x distances x heights; every output of the real find_peaks on '
